@@ -196,6 +196,13 @@ func tparmBody(line string) h.Result {
 	hiStr := false
 	for _, c := range calls {
 		f := strings.Fields(c)
+		if strings.HasPrefix(f[0], "@") {
+			// a registry operation between two evaluations: terminfo.LookupTerminfo(name).  "A TParm result is a function of
+			// (string, parameters, static variables at the time of the call) and of nothing else" — the database is something else
+			_, _ = terminfo.LookupTerminfo(string(h.Unhex(f[0][1:])))
+			tags["lookup-between-calls"] = true
+			continue
+		}
 		prog := h.Unhex(f[0])
 		var params []interface{}
 		// hiStr is sticky for the rest of the line: a string stored in a static variable reaches later calls
@@ -813,7 +820,22 @@ func genTParmHistories(g *h.Gen) {
 				calls = append(calls, h.Pick(r, ts).call)
 			}
 		}
+		if r.Chance(30) { // the terminal database is looked at between the evaluations (another screen is opened, a tool walks the database)
+			at := r.Range(1, len(calls)-1)
+			lk := "@" + h.Hex([]byte(h.Pick(r, []string{"xterm", "vt100", "xterm-256color", "sun-256color", "linux", "no-such-terminal", "", "vt220", "rxvt-truecolor"})))
+			calls = append(calls[:at], append([]string{lk}, calls[at:]...)...)
+			if r.Chance(30) {
+				calls = append(calls[:at], append([]string{"@" + h.Hex([]byte("ansi"))}, calls[at:]...)...)
+			}
+		}
 		tpEmit(g, "history", calls...)
+	}
+	// (1') store, look other terminals up, read back — for a few letters
+	for _, c := range []byte("AQZ") {
+		L := string(rune(c))
+		for _, name := range []string{"xterm", "vt100", "sun-256color", "no-such-terminal"} {
+			tpEmit(g, "history", tpCall("%p1%P"+L, tpI(r.Range(1, 999))), tpCall("%g"+L+"%d"), "@"+h.Hex([]byte(name)), tpCall("%g"+L+"%d"), "@"+h.Hex([]byte("linux")), tpCall("[%g"+L+"%d]"))
+		}
 	}
 	// (3) database strings: identical calls repeated and interleaved with calls of other entries' strings
 	db := tpDBStrings()
